@@ -315,26 +315,22 @@ Record samrec := mk_samrec {
 Definition samrec_of (f : N) (nm : option (list N)) (r s : option N) (ops : list op)
   (sq ql : list N) (mr ms : option N) (t : Z) : samrec := mk_samrec f nm r s ops sq ql mr ms t.
 
-(* None = Err(InvalidInput): invalid reference id, or cigar_to_features rejects the record *)
+(* None = Err(InvalidInput): quality scores not as long as the read, invalid reference id, or
+   cigar_to_features rejects the record (Features.convert_core, /repo 405565a) *)
 Definition convert (refs : list (list N)) (s : samrec) : option mrec :=
-  let mk fs := mk_mrec (s_flags s) (s_name s) (s_ref s) (s_start s) (len (s_seq s)) fs
-                       (s_mref s) (s_mstart s) (s_tlen s) false false None in
-  match s_ref s, s_start s with
-  | Some id, Some st =>
-      match nth_error refs (N.to_nat id) with
+  let placed := match s_ref s, s_start s with
+                | Some id, Some st => Some (nth_error refs (N.to_nat id), st)
+                | _, _ => None
+                end in
+  match convert_core (is_unmapped (s_flags s)) placed (s_seq s) (s_quals s) (s_ops s) with
+  | None => None
+  | Some (rl, _, _, ws) =>
+      match encode_features default_sm ws with
       | None => None
-      | Some refseq =>
-          match cigar_to_features true refseq (s_seq s) (writer_quals (s_seq s) (s_quals s))
-                                  (s_ops s) st with
-          | None => None
-          | Some ws =>
-              match encode_features default_sm ws with
-              | None => None
-              | Some fs => Some (mk fs)
-              end
-          end
+      | Some fs =>
+          Some (mk_mrec (s_flags s) (s_name s) (s_ref s) (s_start s) rl fs
+                        (s_mref s) (s_mstart s) (s_tlen s) false false None)
       end
-  | _, _ => Some (mk [])
   end.
 
 Fixpoint convert_all (refs : list (list N)) (ss : list samrec) : option (list mrec) :=
